@@ -15,7 +15,7 @@ import pickle
 
 import numpy as np
 
-from . import core, gen, inject, ops, snapshot
+from . import core, files, gen, inject, iosim, ops, snapshot
 from .core import Violation
 
 MAX_HEAP = 10
@@ -260,6 +260,40 @@ class InPlace(COp):
         return None
 
 
+READER_CALLS = ["read", "dask_read_compute", "time_offset", "oob", "pickle", "read_lock"]
+
+
+def gen_reader_call(tape, length, label):
+    kind = READER_CALLS[tape.weighted([5, 3, 2, 2, 1, 1], f"{label}.kind")]
+    o = tape.draw(length + 1, f"{label}.o")
+    n = tape.draw(min(length - o, 24) + 1, f"{label}.n")
+    return {"kind": kind, "o": o, "n": n, "k": tape.draw(length + 1, f"{label}.k")}
+
+
+def call_reader(pb, reader, desc, args):
+    import astropy.units as u
+    k = desc["kind"]
+    if k == "read":
+        return reader.read(desc["o"], desc["n"])
+    if k == "read_lock":
+        return reader.read(desc["o"], desc["n"], lock=args["lock"])
+    if k == "dask_read_compute":
+        z = reader.dask_read(desc["o"], desc["n"])
+        return z.compute(scheduler="synchronous")
+    if k == "time_offset":
+        t = reader.time_at(desc["k"])
+        a = reader.offset_at(t) if t is not None else None
+        b = reader.offset_at(reader.time_at(desc["k"], unit=u.us))
+        return (a, b, reader.stop_time, len(reader), reader.dt, reader.time_length)
+    if k == "oob":
+        return reader.read(len(reader) - 1 if len(reader) else 0, 3)
+    if k == "pickle":
+        import cloudpickle
+        clone = cloudpickle.loads(cloudpickle.dumps(reader))
+        return clone.read(desc["o"], desc["n"])
+    raise ValueError(k)
+
+
 def all_ops():
     d = dict(ops.OPS)
     d.update(C_OPS)
@@ -336,7 +370,89 @@ def hidden_state(pb):
     return out
 
 
+def reader_step(ctx, pb, heap, inj, io, rh, s, hist):
+    """One call on a reader that lives on the heap; crash points are the line events of
+    pulsarbat code AND every open/seek/read/close through the I/O seam."""
+    tape = ctx.tape
+    reader = rh.obj
+    desc = gen_reader_call(tape, len(reader), f"s{s}.rc")
+    enum_kind = tape.weighted([1, 2, 2, 2], f"s{s}.enum")     # none / interrupt / memory / io
+    opname = "reader." + desc["kind"]
+    ctx.log("step", s, opname, rh.name, desc, enum_kind)
+    ctx.note(f"step {s}: {opname}({rh.name} = {rh.origin}) args={desc} "
+             f"crash-enumeration={['none', 'interrupt', 'memory', 'io-error'][enum_kind]}")
+    hist.append({"step": s, "op": opname, "target": rh.name, "args": desc,
+                 "crash_enum": ["none", "interrupt", "memory", "io-error"][enum_kind]})
+    args = {}
+    if desc["kind"] == "read_lock":
+        import threading
+        args["lock"] = threading.RLock()     # re-entrant: an interrupt between the with-body and __exit__ leaves it held
+
+    def thunk():
+        core.clear_library_caches(pb)
+        return call_reader(pb, reader, desc, args)
+
+    io.forced = ("none", -1)
+    for p in io.counts:
+        io.counts[p] = 0
+    outcome, val = inj.run(thunk)
+    L = inj.count
+    io_counts = dict(io.counts)
+    ctx.steps += 1
+    ctx.counts["ops"] += 1
+    ctx.counts[f"op.{opname}.{outcome}"] += 1
+    if outcome == "raise":
+        if not isinstance(val, Exception):
+            raise val
+        ctx.probe("op_raised_on_its_own")
+        ctx.log("raised", type(val).__name__)
+    heap.check(opname, f"after fault-free call ({outcome})")
+    if enum_kind in (1, 2) and L:
+        exc = [None, inject.SimInterrupt, inject.SimMemoryError][enum_kind]
+        kname = ["", "interrupt", "memory"][enum_kind]
+        for k in range(min(L, 200)):
+            io.forced = ("none", -1)
+            inj.run(thunk, target=k, exc=exc)
+            ctx.counts["injected_executions"] += 1
+            if inj.fired:
+                ctx.fault(kname)
+            heap.check(opname, f"after {kname} at crash point {k}/{L} {inj.site}")
+        ctx.counts["enumerated_steps"] += 1
+        ctx.counts["crash_points"] += min(L, 200)
+        ctx.log("enum", kname, L)
+    elif enum_kind == 3:
+        nf = 0
+        for point in iosim.FAULT_POINTS:
+            for k in range(io_counts.get(point, 0)):
+                for p in io.counts:
+                    io.counts[p] = 0
+                io.forced = (point, k)
+                inj.run(thunk)
+                nf += 1
+                ctx.counts["injected_executions"] += 1
+                heap.check(opname, f"after injected OSError at {point} #{k}")
+        io.forced = ("none", -1)
+        ctx.counts["enumerated_steps"] += 1
+        ctx.counts["crash_points"] += nf
+        ctx.log("enum", "io", nf)
+    io.forced = ("none", -1)
+    if outcome == "ok" and isinstance(val, pb.Signal):
+        h = heap.add(val, "signal", f"result of step {s} {opname}({rh.name})")
+        ctx.log("result", h.name, type(val).__name__, val.shape, str(val.dtype))
+    elif outcome == "ok":
+        ctx.log("value", type(val).__name__)
+
+
 def run(ctx):
+    try:
+        return _run(ctx)
+    finally:
+        seam = getattr(ctx, "_seam", None)
+        if seam is not None:
+            seam.__exit__(None, None, None)
+
+
+def _run(ctx):
     pb = core.setup_imports()
     import dask.array as da
     tape = ctx.tape
@@ -361,12 +477,32 @@ def run(ctx):
             ctx.probe("noncontiguous_input")
     for name, obj in hidden_state(pb):
         heap.add(obj, "arg", f"default-arg {name}")
+    readers = []
+    io = None
+    if tape.chance(1, 4, "world.reader"):
+        files.workdir()
+        fs = files.gen_file_spec(tape, label="wr", kinds=[
+            "dada_complex", "vdif_real", "guppi", "dada_stokes", "dada_multi", "vdif_complex",
+            "dada_real", "sample_dada", "sample_guppi"])
+        rs = files.reader_spec(fs)
+        io = iosim.IOSim(ctx, None, 0)
+        seam = iosim.installed(pb, io)
+        seam.__enter__()
+        ctx._seam = seam
+        rd = files.open_reader(pb, rs)
+        readers.append(heap.add(rd, "reader", f"reader {rs['cls']} on {fs['kind']}"))
+        specs.append({"reader": rs})
+        ctx.probe("reader_on_heap")
     ctx.log("world", specs)
 
     nsteps = 1 + tape.draw(8 if ctx.tier == "quick" else 12, "nsteps")
     hist = []
     ctx.sample = {"world": specs, "history": hist}
     for s in range(nsteps):
+        if readers and tape.chance(1, 3, f"s{s}.readerstep"):
+            reader_step(ctx, pb, heap, inj, io, readers[0], s, hist)
+            heap.evict()
+            continue
         sigs = heap.signals()
         # bias towards recent objects (outputs and aliases of earlier steps)
         w = [1 + i for i in range(len(sigs))]
@@ -462,5 +598,4 @@ def run(ctx):
             ctx.log("value", type(val).__name__)
         heap.evict()
 
-    ctx.sample = {"world": specs, "history": hist}
     ctx.nontrivial = ctx.counts["enumerated_steps"] > 0 or nsteps >= 2
